@@ -292,7 +292,10 @@ class Evaluator:
                     ipart = Poly({m: c for m, c in q.t.items() if m != ()})
                     if not ipart.is_zero() and self.facts.is_integer(ipart):
                         return ipart + Poly.const(math.floor(cpart))
-                return self.atom("floordiv", a, b)
+                r_ = self.atom("floordiv", a, b)
+                if self.facts.is_integer(a) and self.facts.is_integer(b):
+                    self.facts.int_syms |= r_.symbols()     # an integer quotient of integers is an integer: int(.) / floor(.) of it is the identity
+                return r_
             if isinstance(e.op, ast.Mod):
                 q = a.div(b)
                 if q is not None and self.facts.is_integer(q):
@@ -315,7 +318,10 @@ class Evaluator:
                             ok = False
                     if ok and const.denominator == 1:
                         return Poly.const(int(const) % k)
-                return self.atom("mod", a, b)
+                r_ = self.atom("mod", a, b)
+                if self.facts.is_integer(a) and self.facts.is_integer(b):
+                    self.facts.int_syms |= r_.symbols()
+                return r_
             if isinstance(e.op, ast.Pow):
                 cb = b.const_value()
                 if cb is not None and cb.denominator == 1:
